@@ -357,7 +357,9 @@ static std::vector<W> interesting()
 {
   std::vector<W> v;
   if constexpr (std::is_floating_point_v<T>) {
-    for (T x : { (T)0, (T)1, (T)-1.5, (T)1e10, (T)-3.25e-3 }) {
+    // (incl. values for which x + 1 - 1 != x: stepping and undoing is not an identity on them)
+    for (T x : { (T)0, (T)1, (T)-1.5, (T)1e10, (T)-3.25e-3, (T)0.1, (T)1e-10, (T)16777216.0, (T)9007199254740992.0,
+                 (T)-16777217.0, (T)0.3 }) {
       v.push_back(bits_of(x));
     }
   } else {
@@ -766,6 +768,8 @@ int main(int argc, char** argv)
   incdec_unary<'V', unsigned long long>();
   incdec_unary<'T', double>();
   incdec_unary<'V', double>();
+  incdec_unary<'T', float>();
+  incdec_unary<'V', float>();
   unary_narrow<'T', signed char>();
   unary_narrow<'V', signed char>();
   unary_narrow<'T', unsigned char>();
